@@ -44,14 +44,14 @@ type c08desc struct {
 	role, suite, tlsv, op, them      string
 	ncerts                           int
 	der, signedby, time, uris, cn    string
-	sig, nonce, id, via, live        string
+	sig, nonce, id, via, live, decoy string
 }
 
-var c08keysOrder = []string{"role", "suite", "tlsv", "op", "them", "ncerts", "der", "signedby", "time", "uris", "cn", "sig", "nonce", "id", "via", "live"}
+var c08keysOrder = []string{"role", "suite", "tlsv", "op", "them", "ncerts", "der", "signedby", "time", "uris", "cn", "sig", "nonce", "id", "via", "live", "decoy"}
 
 func (d c08desc) line() string {
-	return fmt.Sprintf("c08 hs role=%s suite=%s tlsv=%s op=%s them=%s ncerts=%d der=%s signedby=%s time=%s uris=%s cn=%s sig=%s nonce=%s id=%s via=%s live=%s",
-		d.role, d.suite, d.tlsv, d.op, d.them, d.ncerts, d.der, d.signedby, d.time, d.uris, d.cn, d.sig, d.nonce, d.id, d.via, d.live)
+	return fmt.Sprintf("c08 hs role=%s suite=%s tlsv=%s op=%s them=%s ncerts=%d der=%s signedby=%s time=%s uris=%s cn=%s sig=%s nonce=%s id=%s via=%s live=%s decoy=%s",
+		d.role, d.suite, d.tlsv, d.op, d.them, d.ncerts, d.der, d.signedby, d.time, d.uris, d.cn, d.sig, d.nonce, d.id, d.via, d.live, d.decoy)
 }
 
 func c08in(s string, set ...string) bool {
@@ -97,7 +97,7 @@ func c08parse(line string) (c08desc, bool) {
 		}
 	}
 	d = c08desc{role: m["role"], suite: m["suite"], tlsv: m["tlsv"], op: m["op"], them: m["them"], der: m["der"],
-		signedby: m["signedby"], time: m["time"], uris: m["uris"], cn: m["cn"], sig: m["sig"], nonce: m["nonce"], id: m["id"], via: m["via"], live: m["live"]}
+		signedby: m["signedby"], time: m["time"], uris: m["uris"], cn: m["cn"], sig: m["sig"], nonce: m["nonce"], id: m["id"], via: m["via"], live: m["live"], decoy: m["decoy"]}
 	n := m["ncerts"]
 	if len(n) == 0 || len(n) > 3 {
 		return d, false
@@ -111,7 +111,8 @@ func c08parse(line string) (c08desc, bool) {
 	ok := c08in(d.role, "dial", "accept") && c08in(d.suite, "ed", "g1", "g2") && c08in(d.tlsv, "12", "13") &&
 		c08isKey(d.op) && d.ncerts <= 3 && c08in(d.der, "ok", "bad", "two") && c08in(d.signedby, "self", "other") &&
 		c08in(d.time, "ok", "expired", "future") && c08isName(d.cn) && c08in(d.nonce, "ok", "short", "none") &&
-		c08in(d.via, "key", "relay") && c08in(d.live, "none", "v", "a", "o") && (d.role == "accept" || d.live == "none")
+		c08in(d.via, "key", "relay") && c08in(d.live, "none", "v", "a", "o") && (d.role == "accept" || d.live == "none") &&
+		(d.decoy == "none" || c08isName(d.decoy))
 	if d.uris != "none" {
 		for _, u := range strings.Split(d.uris, ",") {
 			p := strings.Split(u, "@")
@@ -306,6 +307,23 @@ func (w *c08world) cert(d c08desc, cur, stale, lifted []byte) (*tls.Certificate,
 		cder = append(append([]byte{}, cder...), cder...)
 	}
 	c := &tls.Certificate{PrivateKey: w.tlsKey}
+	if d.decoy != "none" {
+		// one more certificate in front: the peer's TLS key, the decoy name, no URI, no proof
+		dt := &x509.Certificate{
+			BasicConstraintsValid: true,
+			ExtKeyUsage:           []x509.ExtKeyUsage{x509.ExtKeyUsageServerAuth, x509.ExtKeyUsageClientAuth},
+			NotBefore:             time.Now().Add(-5 * time.Minute),
+			NotAfter:              time.Now().Add(2 * time.Hour),
+			SerialNumber:          new(big.Int).SetBytes(c08rand(12)),
+			SignatureAlgorithm:    x509.ECDSAWithSHA384,
+			Subject:               pkix.Name{CommonName: w.name(d.decoy)},
+		}
+		dder, err := x509.CreateCertificate(rand.Reader, dt, dt, w.tlsKey.Public(), w.tlsKey)
+		if err != nil {
+			return nil, err
+		}
+		c.Certificate = append(c.Certificate, dder)
+	}
 	for i := 0; i < d.ncerts; i++ {
 		c.Certificate = append(c.Certificate, cder)
 	}
@@ -412,7 +430,7 @@ func c08startServer(w *c08world, d c08desc, tok string) (*c08server, error) {
 			if rec {
 				return nil, errors.New("only collecting the nonce")
 			}
-			if d.ncerts == 0 {
+			if d.ncerts == 0 && d.decoy == "none" {
 				return nil, errors.New("no certificate to present")
 			}
 			var lifted []byte
@@ -532,7 +550,7 @@ func c08runClient(w *c08world, d c08desc, addr, tok string, stale []byte, lift f
 		InsecureSkipVerify: true,
 		ServerName:         string(c08peerNonce(d.nonce)),
 		GetClientCertificate: func(req *tls.CertificateRequestInfo) (*tls.Certificate, error) {
-			if d.ncerts == 0 {
+			if d.ncerts == 0 && d.decoy == "none" {
 				return &tls.Certificate{}, nil
 			}
 			if len(req.AcceptableCAs) == 0 {
